@@ -9,6 +9,7 @@
               byte boundaries of the *outer* fragmentation; lists long enough to cross them
      Pairs    every two neighbouring scalar fields with the first one ending exactly on / just
               after a fragment boundary (the iterator's look-ahead sees the neighbour's tag)
+              lists of 2..4 items in which any subset of the non-last items has no field set
      AllSet   every field set, uniformly sized, lists of 1..3 items, nesting to depth Depth
    runs the pipeline of TlvStruct on each, checks the invariants and exports the value with the
    wire image the specification prescribes, for replay on the real classes. *)
@@ -70,6 +71,8 @@ WideSet(f) ==
             \cup { << v >> : v \in InnerSweep(f.inner) }
             \cup { << it(1), v >> : v \in InnerSweep(f.inner) }
             \cup { [k \in 1..cnt |-> it(k)] : cnt \in CrossCounts(f.inner, it(1)) }
+            \* 2..4 items, every subset of the non-last items is the item without fields (zero bytes)
+            \cup UNION { { [k \in 1..cnt |-> IF k \in Z THEN Empty(f.inner) ELSE it(k)] : Z \in SUBSET (1..(cnt - 1)) } : cnt \in 2..4 }
       [] f.kind = "ids"    ->
             { [k \in 1..cnt |-> Fill("pat", f.tag + k, f.w)] : cnt \in 0..MaxIds }
             \cup { [k \in 1..cnt |-> v] : v \in IdVals(f), cnt \in 1..3 }
